@@ -142,17 +142,36 @@ def sanitiser_order(chk):
     for q, fi in floors.items():
         floor_shape(chk, fi)
 
+    def positional(t, q):
+        """positional + keyword arguments of a call to helper q, ordered by q's parameters"""
+        names = prog.functions[q].params(skip_self=False)
+        args = list(t[2])
+        kw = dict((k, v) for k, v in t[3] if k)
+        if any(k is None for k, _v in t[3]) or any(a[0] == "star" for a in args):
+            return None
+        out = []
+        for i, nm in enumerate(names):
+            if i < len(args):
+                out.append(args[i])
+            elif nm in kw:
+                out.append(kw[nm])
+            else:
+                return None
+        return out
+
     def parse_clamp(t):
         for q, (lo, va, hi) in clamps.items():
-            if is_call_to(t, q) and len(t[2]) == 3 and not t[3]:
-                return t[2][lo], t[2][va], t[2][hi]
+            if is_call_to(t, q):
+                a = positional(t, q)
+                if a is not None and len(a) == 3:
+                    return a[lo], a[va], a[hi]
         return None
 
     def parse_floor(t):
         for q, fi in floors.items():
             if is_call_to(t, q):
-                args = list(t[2]) + [v for _n, v in t[3]]
-                return args
+                a = positional(t, q)
+                return a if a is not None else list(t[2]) + [v for _n, v in t[3]]
         return None
 
     MIN, MAX = ("attr", SELF, "minimum"), ("attr", SELF, "maximum")
@@ -285,7 +304,7 @@ def floor_shape(chk, fi):
         chk.ok(rule, fi.qual, "floor to a multiple of the base: %s" % show(t), node=fi.node)
     else:
         txt = show(t)
-        if "round" in txt or "ceil" in txt or ("/" in txt and "//" not in txt) or "neg" in txt:
+        if "round" in txt or "ceil" in txt or ("/" in txt and "//" not in txt) or "neg" in txt or "fmod" in txt or "trunc" in txt or "builtins.int(" in txt:
             chk.bad(rule, fi.qual, "the granularity helper computes %s, which does not round DOWN to a multiple of the base" % txt, node=fi.node, stmt="floor-shape")
         elif t[0] == "binop" and t[1] == "*" and t[2][0] == "binop" and t[2][1] == "//":
             chk.bad(rule, fi.qual, "the granularity helper divides and multiplies by different bases: %s" % txt, node=fi.node, stmt="floor-shape")
